@@ -1268,3 +1268,92 @@ let run_top builtin w lw llw s env e =
 
 let env_of_list l i =
   nth i l Z0
+
+type narrow_cmp =
+| CmpLt
+| CmpLe
+
+(** val cmp_holds : narrow_cmp -> z -> z -> bool **)
+
+let cmp_holds c w iw =
+  match c with
+  | CmpLt -> Z.ltb w iw
+  | CmpLe -> Z.leb w iw
+
+type choice =
+| CNarrow
+| CBase of z * bool
+| CFatal
+
+(** val dispatch_choice : narrow_cmp -> z -> z -> z -> z -> bool -> choice **)
+
+let dispatch_choice c iw lw llw w s =
+  if cmp_holds c w iw
+  then CNarrow
+  else if Z.eqb w iw
+       then CBase (iw, s)
+       else if Z.eqb w lw
+            then CBase (lw, s)
+            else if Z.eqb w llw then CBase (llw, s) else CFatal
+
+(** val narrow_unchecked : binop -> z -> z -> bool -> z -> z -> hres **)
+
+let narrow_unchecked op iw w s a b =
+  R ((wrap w s (wrap iw true (exact_op op a b))), false)
+
+(** val narrow_checked :
+    bool -> binop -> z -> z -> z -> z -> bool -> bool -> bool -> bool -> z ->
+    z -> hres **)
+
+let narrow_checked builtin op iw lw llw w s cb ca swap a b =
+  let p = base_helper builtin op iw true lw llw cb ca swap a b in
+  R ((wrap w s (fst p)),
+  ((||) (snd p) (negb (Z.eqb (wrap w s (fst p)) (fst p)))))
+
+(** val binop_dispatch_v :
+    bool -> narrow_cmp -> bool -> binop -> z -> z -> z -> z -> bool -> bool
+    -> bool -> bool -> z -> z -> hres **)
+
+let binop_dispatch_v fx c builtin op iw lw llw w s cb ca swap a b =
+  match dispatch_choice c iw lw llw w s with
+  | CNarrow ->
+    if fx
+    then narrow_checked builtin op iw lw llw w s cb ca swap a b
+    else narrow_unchecked op iw w s a b
+  | CBase (bw, bs) ->
+    of_pair (base_helper builtin op bw bs lw llw cb ca swap a b)
+  | CFatal -> Fatal
+
+(** val lshift_td : z -> z -> bool -> z -> z -> z * bool **)
+
+let lshift_td iw w s a b =
+  if (&&) (Z.ltb w iw) (negb s) then (Z0, true) else lshift_helper w s a b
+
+(** val oc_of_hres : hres -> oc **)
+
+let oc_of_hres = function
+| R (v, f) -> if f then Ovf else Val v
+| Fatal -> Undef
+
+(** val typedef_node :
+    bool -> narrow_cmp -> bool -> cop -> z -> z -> z -> z -> bool -> bool ->
+    bool -> bool -> z -> z -> oc **)
+
+let typedef_node fx c builtin op iw lw llw w s cb ca swap a b =
+  match op with
+  | OAdd ->
+    oc_of_hres
+      (binop_dispatch_v fx c builtin Add iw lw llw w s cb ca swap a b)
+  | OSub ->
+    oc_of_hres
+      (binop_dispatch_v fx c builtin Sub iw lw llw w s cb ca swap a b)
+  | OMul ->
+    oc_of_hres
+      (binop_dispatch_v fx c builtin Mul iw lw llw w s cb ca swap a b)
+  | OLshift -> raise_if (lshift_td iw w s a b)
+
+(** val nogil_node : bool -> bool -> oc -> oc **)
+
+let nogil_node gil_fixed in_nogil o = match o with
+| Ovf -> if (&&) in_nogil (negb gil_fixed) then Undef else Ovf
+| _ -> o
